@@ -57,12 +57,12 @@
 //                             beyond the input; for a v1 decoder a successful read consumes >= 1 byte of `rest()`; for any other
 //                             decoder NOTHING is promised about consumption (v2 reads these from separate RLE columns).
 //                             The real bodies of DecoderV1::{read_client, read_info, read_len} are verified against it.
-//   trait Decoder: ColumnReads   adds the BODILESS `decode_block(id, decoder)` = `Update::decode_block` (update.rs; the call
-//                             `Self::decode_block(id, decoder)` is spelled `D::decode_block(id, decoder)`, SUB, logged).
-//                             Its Item arm needs ItemContent::decode / Item::new / Box / ItemPtr (pointer core): not ingestible.
-//                             CONTRACT = exactly what `decode` needs, each clause justified from the real text at the declaration.
-//                             The Skip and GC arms are ALSO lifted mechanically (R18) and verified against that contract
-//                             (`decode_block_skip`, `decode_block_gc`, incl. the `if len == 0` guards), so two of the three arms are not taken on trust.
+//   `decode_block(id, decoder)`  = `Update::decode_block` (update.rs): external_body STUB of the function PROVED in unit content_codec
+//                             (whole real body, all three arms); its contract text (wf, suffix_of, v1 progress, `block_of` with
+//                             len >= 1, + a token clause `block_ok` this unit does not use) is cross-checked by the extractor, the
+//                             body is dropped.  The call `Self::decode_block(id, decoder)` is spelled `decode_block(id, decoder)`
+//                             (SUB, logged).  The Skip and GC arms are ALSO lifted here (R18: `decode_block_skip`,
+//                             `decode_block_gc`, incl. the `if len == 0` guards) and verified against the same clauses.
 //   `read_var` is the real `lib0::Read::read_var` (units/lib0_common/*, proved equal to the spec decoders there).
 //
 // STAND-IN TYPES (everything else is extracted verbatim from /repo on every run)
@@ -71,9 +71,10 @@
 //                BlockSet without the hasher parameter (SUB).  `VecDeque<Block>` is the REAL std type (vstd specifies new /
 //                push_back / push_front / len; `is_empty` gets an assume_specification here).
 //   IdSet        opaque; `<IdSet as Decode>::decode` is an external_body STUB whose contract text is the @sig of unit dec_comp
-//                (cross-checked by the extractor).  Its vocabulary (`@`, ranges_ordered, enc_ok, wf_map, dec_idset, idset_of) is
-//                declared UNINTERPRETED here, without axioms: this unit only uses the trait-level contract of `Decode`
-//                (wf, suffix_of, progress), which dec_comp proves for IdSet too.
+//                (cross-checked by the extractor, body dropped).  Its vocabulary (`@`, ranges_ordered, enc_ok, wf_map, dec_idset,
+//                idset_of) is declared UNINTERPRETED here, without axioms: this unit only uses the trait-level contract of `Decode`
+//                (wf, suffix_of, progress), which dec_comp proves for IdSet too.  Likewise `Tok`, `toks()`, `block_ok` of unit
+//                content_codec's contract of `decode_block` (uninterpreted / opaque; unused).
 //   Error        sliced stand-in of units/lib0_common/base.rs; `impl From<TryReserveErrorStandIn> for Error` is written out
 //                (real: thiserror `#[from]` on `NotEnoughMemory`) and verified.
 //
@@ -91,12 +92,13 @@
 //                                     `vx_budget(decoder).for_map(&clients).try_reserve(X)` (SUB; X stays the real argument).
 //   assume_specification VecDeque::is_empty   "Returns true if the deque contains no elements."
 //   `HashMap::with_hasher(BuildHasherDefault::default())` is spelled `HashMap::new()` (SUB; the hasher is not modelled, unit sv).
-//   IdSet::decode stub (see above); decode_block (bodiless, see above); + what units/lib0_common/base.rs trusts.
+//   STUBS of functions proved elsewhere (contract text cross-checked, nothing assumed beyond it): IdSet::decode (unit dec_comp),
+//   Update::decode_block (unit content_codec).  + what units/lib0_common/base.rs trusts.
 //
 // REWRITES (all logged): R9, R10; SUB: the hasher type parameter, `crate::encoding::read::Error` -> Error, the constructor and
 //   call spellings listed above.
 //
-// NOT IN THIS UNIT: `decode_block`'s Item arm (ItemContent::decode, Item::new), the public wrappers `decode_v1` / `decode_v2`
+// NOT IN THIS UNIT: the body of `decode_block` (unit content_codec), the public wrappers `decode_v1` / `decode_v2`
 //   (DecoderV1::from / DecoderV2::new: units dec_comp / lib0_v2), what `Update::integrate` does with a decoded value.
 #![feature(allocator_api)]
 #![allow(unused_imports, unused_variables, unused_mut, dead_code, unused_parens, unused_braces, unused_assignments)]
@@ -116,7 +118,7 @@ verus! {
    SUB(from=clients.try_reserve;;to=vx_budget(decoder).for_map(&clients).try_reserve)
    SUB(from=blocks.try_reserve;;to=vx_budget(decoder).for_deque(&*blocks).try_reserve)
    SUB(from=blocks.clients.entry;;to=blocks.clients.vx_entry)
-   SUB(from=Self::decode_block(id, decoder);;to=D::decode_block(id, decoder))
+   SUB(from=Self::decode_block(id, decoder);;to=decode_block(id, decoder))
    SUB(from=.retain;;to=.vx_retain)
 @*/
 
@@ -794,14 +796,8 @@ pub trait ColumnReads: Read {
     /// the decoder implements version 1 of the update format (everything is read from the one byte stream `rest()`)
     spec fn v1() -> bool;
 
-    /// real: `Decoder::reset_ds_cur_val` (only called by the body of the IdSet::decode stub; contract of unit dec_comp)
-    fn reset_ds_cur_val(&mut self)
-        requires
-            old(self).wf(),
-        ensures
-            final(self).wf(),
-            final(self).rest() == old(self).rest(),
-    ;
+    /// the unread tokens (ghost; only mentioned by the token clause of content_codec's contract of `decode_block`)
+    spec fn toks(&self) -> Seq<Tok>;
 
     /// real: `Decoder::read_client`.  v1: a u64 var-int of the stream, range-checked by `ClientID::decode`;
     /// v2: `ClientID::decode(self.client_decoder.read_u64()?)` -- a separate RLE column, `rest()` untouched
@@ -836,32 +832,8 @@ pub trait ColumnReads: Read {
     ;
 }
 
-pub trait Decoder: ColumnReads {
-    /// BODILESS: `Update::decode_block(id, decoder)` (yrs/src/update.rs).  Clause by clause, from the real text:
-    ///   wf / suffix_of   the body only calls `Decoder` / `Read` methods (read_info, read_var, read_len, read_left_id,
-    ///                    read_right_id, read_parent_info, read_string, ItemContent::decode -> read_*): each consumes a prefix of
-    ///                    what is unread and keeps the reader's invariant.
-    ///   v1 progress      the FIRST statement is `let info = decoder.read_info()?;` -- every Ok result comes after a successful
-    ///                    `read_info`, which for DecoderV1 is `self.cursor.read_u8()` (verified below: one byte).  NOT true for
-    ///                    DecoderV2 (RLE column, see `read_info`), hence the guard `Self::v1()`.  (FINDING F-UD-1.)
-    ///   client / clock   Skip: `Block::Skip(BlockRange::new(id, len))`, GC: `Block::GC(BlockRange::new(id, len))` (both arms are
-    ///                    lifted and verified below), Item: `Item::new(id, None, origin, None, right_origin, parent, parent_sub,
-    ///                    content)` stores `id` unchanged (block.rs: `Box::new(Item { id, len, .. })`) and `Block::from(item)` is
-    ///                    `Block::Item(item)`.
-    ///   len >= 1         EVERY block: Item -- `Item::new` computes `let len = content.len(OffsetKind::Utf16); if len == 0 { return
-    ///                    None; }` and decode_block maps `None => Ok(None)`;  Skip / GC -- both arms read the length and
-    ///                    `if len == 0 { return Ok(None); }` before the block is built (lifted and verified below).
-    ///   Nothing is promised about the Err cases (which errors, how much was consumed beyond `suffix_of`).
-    fn decode_block(id: ID, decoder: &mut Self) -> (res: Result<Option<Block>, Error>)
-        requires
-            old(decoder).wf(),
-        ensures
-            final(decoder).wf(),
-            suffix_of(old(decoder).rest(), final(decoder).rest()),
-            Self::v1() && res is Ok ==> final(decoder).rest().len() < old(decoder).rest().len(),
-            res is Ok && res->Ok_0 is Some ==> block_of(res->Ok_0->Some_0, id),
-    ;
-}
+/// the decoders `Update::decode` is generic in (real: `trait Decoder: Read`; the methods this unit's code calls are in `ColumnReads`)
+pub trait Decoder: ColumnReads {}
 
 /// a block made for `id`: it carries the id it was given and is NOT EMPTY (Item, GC and Skip alike)
 pub open spec fn block_of(b: Block, id: ID) -> bool {
@@ -870,10 +842,43 @@ pub open spec fn block_of(b: Block, id: ID) -> bool {
     &&& b.bv().len >= 1
 }
 
+// ---- vocabulary of unit content_codec's contract of `decode_block` that this unit does not use, UNINTERPRETED here (no axioms):
+// the token clause `block_ok(..)` over the ghost token stream `toks()` of the decoder (`spec fn toks` of `ColumnReads`)
+/// opaque here (content_codec: the token alphabet of the block grammar)
+pub struct Tok(pub u64);
+
+pub uninterp spec fn block_ok(id: ID, t0: Seq<Tok>, res: Result<Option<Block>, Error>, t1: Seq<Tok>) -> bool;
+
+pub uninterp spec fn vx_toks_of(rest: Seq<u8>) -> Seq<Tok>;
+
+// `Update::decode_block(id, decoder)` (yrs/src/update.rs): STUB of the function PROVED in unit content_codec (label decode_block,
+// whole real body, all three arms); contract text cross-checked by the extractor, body dropped.  What `Update::decode` uses:
+//   wf / suffix_of     never rewinds, never reads beyond the input, keeps the reader's invariant
+//   v1 progress        the first statement is `let info = decoder.read_info()?;`; DecoderV1::read_info is `self.cursor.read_u8()`
+//                      (verified below: one byte).  NOT true for DecoderV2 (RLE column), hence the guard `D::v1()` (FINDING F-UD-1)
+//   block_of           the block carries the id it was given (`BlockRange::new(id, len)` / `Item::new(id, ..)`) and has len >= 1
+//                      (Item: `Item::new` returns None for empty content; Skip / GC: `if len == 0 { return Ok(None); }`)
+// `block_ok` (token level) is not used here.  The call `Self::decode_block(id, decoder)` is spelled `decode_block(id, decoder)`
+// (SUB, logged: the stub is a free function, as in content_codec).
+#[verifier::external_body]
+/*@extract yrs/src/update.rs | impl Update | fn decode_block | label=decode_block_stub
+@ret res
+@sig
+    requires
+        old(decoder).wf(),
+    ensures
+        final(decoder).wf(),
+        suffix_of(old(decoder).rest(), final(decoder).rest()),
+        D::v1() && res is Ok ==> final(decoder).rest().len() < old(decoder).rest().len(),
+        res is Ok && res->Ok_0 is Some ==> block_of(res->Ok_0->Some_0, id),
+        block_ok(id, old(decoder).toks(), res, final(decoder).toks()),
+@*/
+
+
 /*@extract yrs/src/block.rs | - | const BLOCK_GC_REF_NUMBER @*/
 /*@extract yrs/src/block.rs | - | const BLOCK_SKIP_REF_NUMBER @*/
 
-// the Skip and GC arms of the real `decode_block`, lifted (R18) and verified against the contract of the bodiless method
+// the Skip and GC arms of the real `decode_block`, lifted (R18) and verified against the same clauses as the stub above
 /*@extract yrs/src/update.rs | impl Update | region decode_block | arm=BLOCK_SKIP_REF_NUMBER => | label=decode_block_skip
 @header
     fn decode_block_skip<D: Decoder>(id: ID, decoder: &mut D) -> (res: Result<Option<Block>, Error>)
@@ -928,7 +933,9 @@ impl<'a> ColumnReads for DecoderV1<'a> {
         true
     }
 
-    /*@extract yrs/src/updates/decoder.rs | impl<'a> Decoder for DecoderV1<'a> | fn reset_ds_cur_val | label=decoder_v1_reset_ds_cur_val @*/
+    open spec fn toks(&self) -> Seq<Tok> {
+        vx_toks_of(self.rest())
+    }
 
     /*@extract yrs/src/updates/decoder.rs | impl<'a> Decoder for DecoderV1<'a> | fn read_client | label=decoder_v1_read_client
     @start
@@ -983,28 +990,6 @@ impl View for IdSet {
 impl IdSet {
     pub closed spec fn enc_ok(&self) -> bool {
         vx_idset_enc_ok(*self)
-    }
-}
-
-// ---- SCAFFOLDING: the extractor always pulls the real body of a stubbed function, and rustc type-checks it although Verus
-// ignores it (external_body).  The three items below exist only so that the body of `IdSet::decode` compiles; NO verified
-// code calls them and they have no contracts of their own (`IdRange::decode` must be external_body because it is an impl of
-// the contract-carrying trait `Decode`; real: `IdRanges<()>::decode`, proved in unit dec_comp).
-pub struct IdRange(pub u64);
-
-impl Decode for IdRange {
-    #[verifier::external_body]
-    fn decode<D: Decoder>(decoder: &mut D) -> (res: Result<Self, Error>) {
-        unimplemented!()
-    }
-}
-
-impl IdSet {
-    pub fn new() -> Self {
-        IdSet(0)
-    }
-
-    pub fn insert_range(&mut self, client: ClientID, range: IdRange) {
     }
 }
 
